@@ -1522,6 +1522,7 @@ class Server:
                         connection.server_host,
                         port,
                         ssl=self.ssl,
+                        start_serving=False,
                         **self._start_server_extra_arguments,
                     )
                     connection.passive_server_port = port
@@ -1542,8 +1543,12 @@ class Server:
                 connection.server_host,
                 connection.passive_server_port,
                 ssl=self.ssl,
+                start_serving=False,
                 **self._start_server_extra_arguments,
             )
+        # caller stores server at connection and starts it then: server
+        # started here is lost (and stays open) when handler is cancelled
+        # in `start_server`
         return passive_server
 
     @ConnectionConditions(ConnectionConditions.login_required)
@@ -1568,6 +1573,7 @@ class Server:
             except errors.NoAvailablePort:
                 connection.response("421", ["no free ports"])
                 return False
+            await connection.passive_server.start_serving()
             code, info_template = "227", "listen socket created {address}"
         else:
             code, info_template = "227", "listen socket already exists {address}"
@@ -1619,6 +1625,7 @@ class Server:
             except errors.NoAvailablePort:
                 connection.response("421", ["no free ports"])
                 return False
+            await connection.passive_server.start_serving()
             code, info = "229", ["listen socket created"]
         else:
             code, info = "229", ["listen socket already exists"]
